@@ -199,6 +199,17 @@ static void write_once_monitor(const SFile *f, const std::string &prop, Violatio
                     }
                     if (ok) ++n_inplace_head;
                 } else if (o.off == c.payload_off + 128 && o.off + o.len == c.end) { ok = true; }
+                else if (o.off == c.payload_off && o.off + o.len == c.end) {     // table, padding and CRC in one write
+                    ok = true;
+                    for (int k = 0; k < 16; ++k) {
+                        uint64_t a, b2; memcpy(&a, img.data() + o.off + 8 * k, 8); memcpy(&b2, data + 8 * k, 8);
+                        if (a == b2) continue;
+                        if (a != 0) { ok = false; why = fmt("head table entry %d changes from %llu to %llu", k, (unsigned long long) a, (unsigned long long) b2); break; }
+                        if (!chunks.count(b2)) { ok = false; why = fmt("head table entry %d set to %llu which is not a known chunk", k, (unsigned long long) b2); break; }
+                    }
+                    if (ok && specdec::crc32c(data, 128) != *(const uint32_t *) (data + o.len - 4)) { ok = false; why = "head table rewrite carries a bad crc"; }
+                    if (ok) ++n_inplace_head;
+                }
                 else why = "partial write inside a head table";
                 break;
             }
@@ -704,6 +715,13 @@ static RunOutcome check_corrupt(const std::string &prop, const Plan &P, int tier
 }
 
 // ------------------------------------------------------------------ engine D: threaded writer under seeded schedules (C06, C07, C08)
+extern "C" {
+void race_begin(uint64_t seed, int k) __attribute__((weak));
+void race_end() __attribute__((weak));
+int race_report_count() __attribute__((weak));
+const char *race_report(int i) __attribute__((weak));
+void race_stats(uint64_t *a, uint64_t *b, uint64_t *c, uint64_t *d) __attribute__((weak));
+}
 static bool is_msg_kind(int k) { return k == OP_FSR || k == OP_ANNO || k == OP_UTC || k == OP_USER || k == OP_OMIT; }
 
 static RunOutcome check_twr(const std::string &prop, const Plan &P) {
@@ -723,7 +741,14 @@ static RunOutcome check_twr(const std::string &prop, const Plan &P) {
         for (auto &v : all) if (v.prop == prop && out.viol.size() < 8) out.viol.push_back(v);
         finish_outcome(out); sim::cleanup(); return out;
     }
+    if (race_begin) { static const int ks[] = {0, 2, 8, 32}; race_begin(P.seed, ks[(P.seed >> 7) & 3]); }
     WriterResult wr = exec::write_twr(P, PATH_A, true);
+    if (race_end) {
+        race_end();
+        for (int i = 0; i < race_report_count(); ++i) add_violation(all, "C06", "data_race", race_report(i));
+        uint64_t a1, a2, a3, a4; race_stats(&a1, &a2, &a3, &a4);
+        out.ctr["race_accesses"] += a1; out.ctr["race_accesses_in_scope"] += a2; out.ctr["race_volatile_accesses"] += a3; out.ctr["race_access_preemptions"] += a4;
+    }
     bool clock_jumped = sim::fault_counts[F_CLOCK_JUMP] > 0;
     out.ctr["queue_wraps"] += mon::n_wrap; out.ctr["queue_resets"] += mon::n_reset; out.ctr["queue_alloc_fail"] += mon::n_alloc_fail; out.ctr["queue_alloc_ok"] += mon::n_alloc_ok;
     out.ctr["queue_max_count"] = std::max<uint64_t>(out.ctr["queue_max_count"], mon::max_count); out.ctr["queue_states_total"] = mon::queue_states.size();
@@ -780,7 +805,10 @@ static RunOutcome check_twr(const std::string &prop, const Plan &P) {
             specdec::Decoded d; specdec::decode(twr_bytes, d, true);
             for (auto &e : d.errors) { size_t bar = e.find('|'); add_violation(all, "C07", "close_file_not_complete", "after jls_twr_close: " + e.substr(bar + 1)); add_violation(all, "C06", "format_" + e.substr(0, bar), e.substr(bar + 1)); }
             if (d.errors.empty()) {
-                std::vector<std::string> ce; specdec::ContentOpts co; specdec::compare_with_model(twr_bytes, d, M, co, ce);
+                std::vector<std::string> ce; specdec::ContentOpts co;
+                // an omission request still in effect at close drops the tail of the last partial block (KF-C15-onrequest-omit-drops-tail): completeness is then not judged here
+                for (auto *e : E) if (P.ops[e->op].kind == OP_OMIT && P.ops[e->op].en) co.samples_must_be_complete = false;
+                specdec::compare_with_model(twr_bytes, d, M, co, ce);
                 for (auto &e : ce) { size_t bar = e.find('|'); add_violation(all, "C06", e.substr(0, bar), "threaded writer file vs accepted calls: " + e.substr(bar + 1)); }
             }
             // ---- (b) bytes = synchronous replay of the applied history
@@ -845,12 +873,17 @@ static RunOutcome check_twr(const std::string &prop, const Plan &P) {
     return out;
 }
 
+#include "checks_more.inc"
+
 RunOutcome run_check(const std::string &prop, const Plan &P, int tier) {
     (void) tier;
     if (prop == "C05" || prop == "C14") return check_format(prop, P);
     if (prop == "C03" || prop == "C19") return check_crash(prop, P, tier);
     if (prop == "C04") return check_corrupt(prop, P, tier);
     if (prop == "C06" || prop == "C07" || prop == "C08") return check_twr(prop, P);
+    if (prop == "C15") return check_omit(prop, P);
+    if (prop == "C17") return check_copy(prop, P, tier);
+    if (prop == "C10") return check_misuse(prop, P);
     if (prop == "C01" || prop == "C02" || prop == "C09" || prop == "C11" || prop == "C12" || prop == "C13") return check_roundtrip(prop, P);
     RunOutcome out;
     add_violation(out.viol, prop, "no_such_check", "check not implemented");
